@@ -10,6 +10,8 @@ trap 'rm -rf "$tmp"' EXIT
 cp "$tmp/report.json" "$VERIF_BUILD/instrument-report.json"
 cd "$VERIF_ROOT/engine"
 cp "$VERIF_REPO/go.sum" go.sum 2>/dev/null || true
+cp go.mod "$VERIF_BUILD/go.mod.keep-sched"
+trap 'rm -rf "$tmp"; cp -f "$VERIF_BUILD/go.mod.keep-sched" "$VERIF_ROOT/engine/go.mod"' EXIT
 if [ "$flavour" = "race" ]; then
   go build -race -tags verif -overlay "$tmp/overlay.json" -o "$VERIF_BUILD/verif-sched-race" ./cmd/verif-sched
 else
